@@ -399,6 +399,15 @@ class _Gen:
             return ["tanh", ["*", ["c", 0.4], v]] if rng.random() < 0.5 else ["exp", ["*", ["c", -0.5], v]]
         if ty == "real":
             return [["sin", "tanh", "cos"][int(rng.integers(3))], v] if rng.random() < 0.7 else v
+        if ty.startswith("bmat"):
+            n_, k_ = (int(x) for x in ty[4:].split("x"))
+            e = None
+            for i in range(n_):
+                for j in range(k_):
+                    t = ["*", _c(rng), ["f", ["idx", ["idx", v, i], j]]]
+                    e = t if e is None else ["+", e, t]
+            # couple two elements of different rows
+            return ["+", e, ["*", _cs(rng, 0.5, 1.5), ["*", ["f", ["idx", ["idx", v, 0], k_ - 1]], ["f", ["idx", ["idx", v, n_ - 1], 0]]]]]
         if ty.startswith("bvec"):
             n = int(ty[4:])
             return ["dot", ["f", v], ["vec"] + [_c(rng) for _ in range(n)]]
@@ -440,7 +449,12 @@ class _Gen:
         lin = (lambda: _c(rng, -0.8, 0.8)) if const_args else self.lin
         v = self.fresh()
         if prim in FLIP_LAW:
-            if batch:
+            if isinstance(batch, (tuple, list)):
+                # a site whose batch has a non-leading axis: matrix of probabilities
+                n_, k_ = batch
+                args = [["prob", ["vec"] + [["vec"] + [lin() for _ in range(k_)] for _ in range(n_)]]]
+                ty = f"bmat{n_}x{k_}"
+            elif batch:
                 args = [["prob", ["vec"] + [lin() for _ in range(batch)]]]
                 ty = f"bvec{batch}"
             else:
@@ -650,6 +664,9 @@ def unit_program(prim, variant=0):
         g.add_site(prim, batch=2, how="mvmap")
     elif variant == 3 and prim in BATCHABLE:
         g.add_site(prim, batch=3, how="direct", layout=0)
+    elif variant in (7, 8) and prim in ("flip_enum", "flip_mvd"):
+        # 7: matrix of probabilities passed directly; 8: vector-valued site under modular_vmap (rows are the lanes)
+        g.add_site(prim, batch=(2, 3), how="direct" if variant == 7 else "mvmap")
     elif variant in (4, 5, 6) and prim in NORMAL_LAW:
         # 4: scalar location against a vector scale; 5: both vectors; 6: scalar location / vector scale through modular_vmap
         g.add_site(prim, batch=3 if variant != 6 else 2, how="mvmap" if variant == 6 else "direct", layout={4: 1, 5: 2, 6: 1}[variant])
